@@ -638,5 +638,470 @@ theorem compactOutput_sorted {s : Lsm} {cd : CompactDef} (d n now : Nat)
     rw [flatten_sorted_iff] at hb ⊢
     exact ⟨fun t ht' => hb.1 t (List.mem_filter.mp ht').1, hb.2.sublist List.filter_sublist⟩
 
+theorem mem_allEntries {s : Lsm} {e : Ent} :
+    e ∈ s.allEntries ↔ e ∈ s.mem ∨ (∃ m ∈ s.imm, e ∈ m) ∨
+      ∃ (i : Nat) (tbls : List Tbl) (t : Tbl), s.levels[i]? = some tbls ∧ t ∈ tbls ∧ e ∈ t.ents := by
+  unfold Lsm.allEntries Lsm.sources
+  cases hl : s.levels with
+  | nil => simp
+  | cons l0 rest =>
+    simp only [List.flatten_append, List.mem_append, List.flatten_cons, List.mem_flatten, List.mem_reverse,
+      List.mem_map]
+    constructor
+    · rintro ((h | ⟨m, hm, he⟩) | ⟨l, ⟨t, ht, rfl⟩, he⟩ | ⟨l, ⟨tbls, ht, rfl⟩, he⟩)
+      · exact .inl h
+      · exact .inr (.inl ⟨m, hm, he⟩)
+      · exact .inr (.inr ⟨0, l0, t, rfl, ht, he⟩)
+      · obtain ⟨l', hl', he'⟩ := List.mem_flatten.mp he
+        obtain ⟨t, ht', rfl⟩ := List.mem_map.mp hl'
+        obtain ⟨j, hj, rfl⟩ := List.getElem_of_mem ht
+        exact .inr (.inr ⟨j + 1, rest[j], t, by simp, ht', he'⟩)
+    · rintro (h | ⟨m, hm, he⟩ | ⟨i, tbls, t, hi, ht, he⟩)
+      · exact .inl (.inl h)
+      · exact .inl (.inr ⟨m, hm, he⟩)
+      · right
+        cases i with
+        | zero => simp at hi; subst hi; exact .inl ⟨t.ents, ⟨t, ht, rfl⟩, he⟩
+        | succ j =>
+          simp at hi
+          exact .inr ⟨_, ⟨tbls, List.mem_of_getElem? hi, rfl⟩,
+            List.mem_flatten.mpr ⟨t.ents, List.mem_map.mpr ⟨t, ht, rfl⟩, he⟩⟩
+
+theorem levels_getD {s : Lsm} {i : Nat} (h : i < s.levels.length) :
+    s.levels[i]? = some (s.levels.getD i []) := by
+  rw [List.getD_eq_getElem?_getD, List.getElem?_eq_getElem h]; rfl
+
+theorem newLevels_get {s : Lsm} {cd : CompactDef} (new0 : List Tbl) (hthis : cd.thisLevel < s.levels.length)
+    (hnext : cd.nextLevel < s.levels.length) (i : Nat) :
+    (newLevels s cd new0)[i]? =
+      if i = cd.thisLevel ∧ cd.thisLevel ≠ cd.nextLevel then some (removeIdx (cdThisT s cd) cd.top)
+      else if i = cd.nextLevel then some (newNext s cd new0) else s.levels[i]? := by
+  unfold newLevels
+  by_cases hc : cd.thisLevel = cd.nextLevel
+  · rw [if_pos hc, List.getElem?_set]
+    have h1 : ¬ (i = cd.thisLevel ∧ cd.thisLevel ≠ cd.nextLevel) := fun h => h.2 hc
+    rw [if_neg h1]
+    by_cases hi : i = cd.nextLevel
+    · rw [if_pos hi.symm, if_pos hnext, if_pos hi]
+    · rw [if_neg (fun h => hi h.symm), if_neg hi]
+  · rw [if_neg hc, List.getElem?_set, List.length_set]
+    by_cases hi : i = cd.thisLevel
+    · rw [if_pos hi.symm, if_pos hthis, if_pos ⟨hi, hc⟩]
+    · rw [if_neg (fun h => hi h.symm), if_neg (fun h => hi h.1), List.getElem?_set]
+      by_cases hi2 : i = cd.nextLevel
+      · rw [if_pos hi2.symm, if_pos hnext, if_pos hi2]
+      · rw [if_neg (fun h => hi2 h.symm), if_neg hi2]
+
+theorem this_level {s : Lsm} {cd : CompactDef} (h : LsmInv s) (hb : CdBase s cd) :
+    s.levels[cd.thisLevel]? = some (cdThisT s cd) ∧ LevelOk cd.thisLevel (cdThisT s cd) := by
+  have := levels_getD hb.1
+  exact ⟨this, h.level this⟩
+
+theorem next_level {s : Lsm} {cd : CompactDef} (h : LsmInv s) (hb : CdBase s cd) :
+    s.levels[cd.nextLevel]? = some (cdNextT s cd) ∧ LevelOk cd.nextLevel (cdNextT s cd) := by
+  have := levels_getD hb.2.1
+  exact ⟨this, h.level this⟩
+
+theorem tops_mem {s : Lsm} {cd : CompactDef} {t : Tbl} (ht : t ∈ cdTops s cd) : t ∈ cdThisT s cd := by
+  obtain ⟨j, _, hj⟩ := mem_pickIdx.mp ht
+  exact List.mem_of_getElem? hj
+
+theorem bots_mem {s : Lsm} {cd : CompactDef} {t : Tbl} (ht : t ∈ cdBots s cd) : t ∈ cdNextT s cd := by
+  obtain ⟨j, _, hj⟩ := mem_pickIdx.mp ht
+  exact List.mem_of_getElem? hj
+
+theorem tops_ne_nil {s : Lsm} {cd : CompactDef} (hb : CdBase s cd) : cdTops s cd ≠ [] := by
+  obtain ⟨_, _, h3, _, h5, _⟩ := hb
+  obtain ⟨i, hi⟩ := List.exists_mem_of_ne_nil _ h5
+  have hlt := h3 i hi
+  intro hnil
+  have : (cdThisT s cd)[i] ∈ cdTops s cd := mem_pickIdx.mpr ⟨i, hi, List.getElem?_eq_getElem hlt⟩
+  rw [hnil] at this; simp at this
+
+theorem bots_eq {s : Lsm} {cd : CompactDef} (hb : CdBase s cd) :
+    cdBots s cd = ((cdNextT s cd).drop (cd.bot.headD 0)).take cd.bot.length := by
+  have hbot := hb.2.2.2.2.2.1
+  have : cdBots s cd = pickIdx (cdNextT s cd) (List.range' (cd.bot.headD 0) cd.bot.length) := by
+    unfold cdBots; rw [← hbot]
+  rw [this, pickIdx_range' _ _ _ hb.2.2.2.2.2.2]
+
+theorem bots_sublist {s : Lsm} {cd : CompactDef} (hb : CdBase s cd) : (cdBots s cd).Sublist (cdNextT s cd) := by
+  rw [bots_eq hb]
+  exact (List.take_sublist _ _).trans (List.drop_sublist _ _)
+
+theorem keyDisjoint_sublist {l l' : List Tbl} (h : l'.Sublist l) (hk : KeyDisjoint l) : KeyDisjoint l' :=
+  List.Pairwise.sublist h hk
+
+/-- the bottom run is sorted: it is a sublist of a level `≥ 1`, or empty -/
+theorem botEnts_sorted {s : Lsm} {cd : CompactDef} (h : LsmInv s) (hc : CompactOk s cd) :
+    SortedEnts (botEnts s cd) := by
+  obtain ⟨hb, hcase⟩ := hc
+  have hnl := (next_level h hb).2
+  have hsub := bots_sublist hb
+  have key : 1 ≤ cd.nextLevel → SortedEnts (botEnts s cd) := by
+    intro h1
+    unfold botEnts
+    rw [flatten_sorted_iff]
+    refine ⟨fun t ht => (hnl.1 t (hsub.subset ht)).2, ?_⟩
+    have := keyDisjoint_sublist hsub (hnl.2 h1)
+    exact this.imp Sep.keyLt_elt
+  rcases hcase with hh | hh | hh | hh
+  · exact key hh.2.1
+  · exact key (by rw [hh.2.1]; omega)
+  · unfold botEnts cdBots; rw [hh.2.2]; simp [pickIdx]; exact sorted_nil
+  · exact key (by rw [hh.2.1]; exact hh.1)
+
+theorem tops_sorted {s : Lsm} {cd : CompactDef} (h : LsmInv s) (hb : CdBase s cd) :
+    ∀ t ∈ cdTops s cd, TblOk t :=
+  fun t ht => (this_level h hb).2.1 t (tops_mem ht)
+
+theorem out_sorted {s : Lsm} {cd : CompactDef} (h : LsmInv s) (hc : CompactOk s cd) (d n now : Nat) :
+    SortedEnts (compactOutput s cd d n now).1 :=
+  compactOutput_sorted d n now (fun t ht => (tops_sorted h hc.1 t ht).2) (botEnts_sorted h hc)
+
+/-- facts about the freshly built tables -/
+theorem new_tables {s : Lsm} {cd : CompactDef} {d n now : Nat} {new0 : List Tbl} (h : LsmInv s)
+    (hc : CompactOk s cd) (hsp : splitSizes cd.outSizes (compactOutput s cd d n now).1 = some new0) :
+    (∀ t ∈ withIds new0 cd.outIds, TblOk t ∧ ∀ e ∈ t.ents, e ∈ (compactOutput s cd d n now).1) ∧
+    (withIds new0 cd.outIds).Pairwise (Sep elt) := by
+  obtain ⟨hflat, hne⟩ := splitSizes_spec hsp
+  have hs := out_sorted h hc d n now
+  rw [← hflat, ← withIds_map_ents new0 cd.outIds, flatten_sorted_iff] at hs
+  refine ⟨?_, hs.2⟩
+  intro t ht
+  have hte : t.ents ∈ (new0.map (·.ents)) := by
+    rw [← withIds_map_ents new0 cd.outIds]; exact List.mem_map.mpr ⟨t, ht, rfl⟩
+  obtain ⟨t0, ht0, het0⟩ := List.mem_map.mp hte
+  refine ⟨⟨?_, hs.1 t ht⟩, ?_⟩
+  · rw [← het0]; exact hne t0 ht0
+  · intro e he
+    rw [← hflat]
+    exact List.mem_flatten.mpr ⟨t.ents, hte, he⟩
+
+theorem cuts_pairwise {l : List Tbl} (hok : ∀ t ∈ l, TblOk t) (hp : l.Pairwise (Sep elt))
+    (hc : CutsAtKeyChange l) : l.Pairwise (Sep keyLt) := by
+  induction l with
+  | nil => exact List.Pairwise.nil
+  | cons a l ih =>
+    cases l with
+    | nil => simp
+    | cons b rest =>
+      obtain ⟨hab, hp'⟩ := List.pairwise_cons.mp hp
+      obtain ⟨hcut, hc'⟩ := hc
+      have ih' := ih (fun t ht => hok t (List.mem_cons_of_mem _ ht)) hp' hc'
+      obtain ⟨hb1, _⟩ := List.pairwise_cons.mp ih'
+      obtain ⟨x, hx⟩ := biggest_some (hok a (by simp)).1
+      obtain ⟨y, hy⟩ := smallest_some (hok b (by simp)).1
+      have hxy : klt x.key y.key := by
+        rcases hab b (by simp) x (biggest_mem hx) y (smallest_mem hy) with h | ⟨h, _⟩
+        · exact h
+        · exact absurd h (hcut x y hx hy)
+      have hsab : Sep keyLt a b := by
+        intro u hu v hv
+        exact klt_of_klt_of_kle (klt_of_kle_of_klt (tbl_keys_le_biggest (hok a (by simp)).2 hx u hu) hxy)
+          (tbl_keys_ge_smallest (hok b (by simp)).2 hy v hv)
+      refine List.pairwise_cons.mpr ⟨?_, ih'⟩
+      intro t ht
+      rcases List.mem_cons.mp ht with rfl | ht
+      · exact hsab
+      · exact Sep.trans sepRel_keyLt (hok b (by simp)).1 hsab (hb1 t ht)
+
+/-- a kept table of the next level lies entirely on one side of everything the compaction reads -/
+def OneSide (t : Tbl) (inputs : List Ent) : Prop :=
+  (∀ x ∈ t.ents, ∀ y ∈ inputs, klt x.key y.key) ∨ (∀ x ∈ t.ents, ∀ y ∈ inputs, klt y.key x.key)
+
+theorem mem_topEnts {s : Lsm} {cd : CompactDef} {e : Ent} :
+    e ∈ topEnts s cd ↔ ∃ t ∈ cdTops s cd, e ∈ t.ents := by
+  unfold topEnts
+  constructor
+  · intro h
+    obtain ⟨l, hl, hel⟩ := List.mem_flatten.mp h
+    obtain ⟨t, ht, rfl⟩ := List.mem_map.mp hl
+    exact ⟨t, ht, hel⟩
+  · rintro ⟨t, ht, hel⟩
+    exact List.mem_flatten.mpr ⟨t.ents, List.mem_map.mpr ⟨t, ht, rfl⟩, hel⟩
+
+theorem mem_botEnts {s : Lsm} {cd : CompactDef} {e : Ent} :
+    e ∈ botEnts s cd ↔ ∃ t ∈ cdBots s cd, e ∈ t.ents := by
+  unfold botEnts
+  constructor
+  · intro h
+    obtain ⟨l, hl, hel⟩ := List.mem_flatten.mp h
+    obtain ⟨t, ht, rfl⟩ := List.mem_map.mp hl
+    exact ⟨t, ht, hel⟩
+  · rintro ⟨t, ht, hel⟩
+    exact List.mem_flatten.mpr ⟨t.ents, List.mem_map.mpr ⟨t, ht, rfl⟩, hel⟩
+
+theorem level_sep_of_ne {l : List Tbl} (hk : KeyDisjoint l) {i j : Nat} {a b : Tbl} (hi : l[i]? = some a)
+    (hj : l[j]? = some b) (hne : i ≠ j) : Sep keyLt a b ∨ Sep keyLt b a := by
+  have hp := List.pairwise_iff_getElem.mp hk
+  obtain ⟨hi1, rfl⟩ := List.getElem?_eq_some_iff.mp hi
+  obtain ⟨hj1, rfl⟩ := List.getElem?_eq_some_iff.mp hj
+  rcases Nat.lt_or_gt_of_ne hne with h | h
+  · exact .inl (hp i j hi1 hj1 h)
+  · exact .inr (hp j i hj1 hi1 h)
+
+/-- the geometric heart of L0→Lbase / Li→Li+1: a table of the next level that does not intersect
+    the key range of the tops is on one side of all tops and all bottom tables -/
+theorem kept_oneSide_exact {s : Lsm} {cd : CompactDef} (h : LsmInv s) (hv : VerBound s) (hb : CdBase s cd)
+    (hn : 1 ≤ cd.nextLevel) (hex : BotExact s cd) {t : Tbl} (ht : t ∈ removeIdx (cdNextT s cd) cd.bot) :
+    OneSide t (topEnts s cd ++ botEnts s cd) := by
+  obtain ⟨j, hj, hjn⟩ := mem_removeIdx.mp ht
+  obtain ⟨hnl, hnok⟩ := next_level h hb
+  have hkd := hnok.2 hn
+  have htm : t ∈ cdNextT s cd := List.mem_of_getElem? hj
+  have htok := hnok.1 t htm
+  obtain ⟨lo, hi, hkr⟩ := keyRangeOf_some (tops_sorted h hb) (tops_ne_nil hb)
+  obtain ⟨hlo, hhi, hcov⟩ := keyRangeOf_cover (tops_sorted h hb) hkr
+  unfold BotExact at hex
+  rw [hkr] at hex
+  simp only at hex
+  obtain ⟨hjlt, hjeq⟩ := List.getElem?_eq_some_iff.mp hj
+  have hgetD : ∀ j' (hj' : j' < (cdNextT s cd).length), (cdNextT s cd).getD j' default = (cdNextT s cd)[j'] := by
+    intro j' hj'; simp [List.getD_eq_getElem?_getD, List.getElem?_eq_getElem hj']
+  have hnov : tblOverlaps lo hi t = false := by
+    have h1 : ¬ tblOverlaps lo hi ((cdNextT s cd).getD j default) = true := fun h' => hjn ((hex j hjlt).mpr h')
+    rw [hgetD j hjlt, hjeq] at h1
+    simpa using h1
+  have hver : ∀ e ∈ t.ents, e.ver ≤ maxU64 :=
+    fun e he => hv e (mem_allEntries.mpr (.inr (.inr ⟨cd.nextLevel, _, t, hnl, htm, he⟩)))
+  -- every bottom table overlaps, and is separated from `t`
+  have hbot : ∀ b ∈ cdBots s cd, tblOverlaps lo hi b = true ∧ (Sep keyLt t b ∨ Sep keyLt b t) := by
+    intro b hbm
+    obtain ⟨j', hj'b, hj'⟩ := mem_pickIdx.mp hbm
+    obtain ⟨hj'lt, hj'eq⟩ := List.getElem?_eq_some_iff.mp hj'
+    have hov := (hex j' hj'lt).mp hj'b
+    rw [hgetD j' hj'lt, hj'eq] at hov
+    refine ⟨hov, level_sep_of_ne hkd hj hj' ?_⟩
+    intro e; subst e; exact hjn hj'b
+  rcases not_overlap_sides htok hver hlo hhi hnov with hside | hside
+  · left
+    intro x hx y hy
+    rcases List.mem_append.mp hy with hy | hy
+    · obtain ⟨tt, htt, hytt⟩ := mem_topEnts.mp hy
+      exact klt_of_klt_of_kle (hside x hx) (hcov tt htt y hytt).1
+    · obtain ⟨b, hbm, hyb⟩ := mem_botEnts.mp hy
+      obtain ⟨hov, hsep⟩ := hbot b hbm
+      rcases hsep with hsep | hsep
+      · exact hsep x hx y hyb
+      · exfalso
+        apply overlap_not_left hov
+        intro z hz
+        obtain ⟨w, hw⟩ := List.exists_mem_of_ne_nil _ htok.1
+        exact klt_trans (hsep z hz w hw) (hside w hw)
+  · right
+    intro x hx y hy
+    rcases List.mem_append.mp hy with hy | hy
+    · obtain ⟨tt, htt, hytt⟩ := mem_topEnts.mp hy
+      exact klt_of_kle_of_klt (hcov tt htt y hytt).2 (hside x hx)
+    · obtain ⟨b, hbm, hyb⟩ := mem_botEnts.mp hy
+      obtain ⟨hov, hsep⟩ := hbot b hbm
+      rcases hsep with hsep | hsep
+      · exfalso
+        apply overlap_not_right hov
+        intro z hz
+        obtain ⟨w, hw⟩ := List.exists_mem_of_ne_nil _ htok.1
+        exact klt_trans (hside w hw) (hsep w hw z hz)
+      · exact hsep y hyb x hx
+
+theorem top_singleton {cd : CompactDef} (h : cd.top.length = 1) : cd.top = [cd.top.headD 0] := by
+  cases ht : cd.top with
+  | nil => rw [ht] at h; simp at h
+  | cons a l =>
+    rw [ht] at h
+    cases l with
+    | nil => rfl
+    | cons _ _ => simp at h
+
+theorem nextT_eq_thisT {s : Lsm} {cd : CompactDef} (h : cd.nextLevel = cd.thisLevel) :
+    cdNextT s cd = cdThisT s cd := by unfold cdNextT cdThisT; rw [h]
+
+theorem kept_oneSide_lmax {s : Lsm} {cd : CompactDef} (h : LsmInv s) (hb : CdBase s cd) (hm : IsLmax s cd)
+    {t : Tbl} (ht : t ∈ removeIdx (cdNextT s cd) (cd.top ++ cd.bot)) :
+    OneSide t (topEnts s cd ++ botEnts s cd) := by
+  obtain ⟨h1, hnt, _, htl, hbot⟩ := hm
+  have hnx := nextT_eq_thisT (s := s) hnt
+  obtain ⟨j, hj, hjn⟩ := mem_removeIdx.mp ht
+  obtain ⟨hnl, hnok⟩ := next_level h hb
+  have hkd := hnok.2 (by rw [hnt]; exact h1)
+  have hp := List.pairwise_iff_getElem.mp hkd
+  have htop := top_singleton htl
+  have hbr := hb.2.2.2.2.2.1
+  -- the indices read form the interval [i, i + 1 + c)
+  have hmt : ∀ j', j' ∈ cd.top ↔ j' = cd.top.headD 0 := by
+    intro j'
+    constructor
+    · intro hm; rw [htop] at hm; simpa using hm
+    · intro e; rw [htop, e]; simp
+  have hmb : ∀ j', j' ∈ cd.bot ↔ cd.bot.headD 0 ≤ j' ∧ j' < cd.bot.headD 0 + cd.bot.length := by
+    intro j'
+    have : j' ∈ cd.bot ↔ j' ∈ List.range' (cd.bot.headD 0) cd.bot.length := by rw [← hbr]
+    rw [this, List.mem_range'_1]
+  have hidx : ∀ j', j' ∈ cd.top ++ cd.bot ↔ cd.top.headD 0 ≤ j' ∧ j' < cd.top.headD 0 + 1 + cd.bot.length := by
+    intro j'
+    rw [List.mem_append, hmt, hmb]
+    rcases hbot with hb0 | hb1
+    · rw [hb0]; simp; omega
+    · rw [hb1]; omega
+  have hinput : ∀ y ∈ topEnts s cd ++ botEnts s cd, ∃ j' b, j' ∈ cd.top ++ cd.bot ∧ (cdNextT s cd)[j']? = some b ∧ y ∈ b.ents := by
+    intro y hy
+    rcases List.mem_append.mp hy with hy | hy
+    · obtain ⟨tt, htt, hytt⟩ := mem_topEnts.mp hy
+      obtain ⟨j', hj', hjj⟩ := mem_pickIdx.mp htt
+      exact ⟨j', tt, List.mem_append_left _ hj', by rw [hnx]; exact hjj, hytt⟩
+    · obtain ⟨tt, htt, hytt⟩ := mem_botEnts.mp hy
+      obtain ⟨j', hj', hjj⟩ := mem_pickIdx.mp htt
+      exact ⟨j', tt, List.mem_append_right _ hj', hjj, hytt⟩
+  obtain ⟨hjlt, hjeq⟩ := List.getElem?_eq_some_iff.mp hj
+  have hjn' : ¬ (cd.top.headD 0 ≤ j ∧ j < cd.top.headD 0 + 1 + cd.bot.length) := fun h' => hjn ((hidx j).mpr h')
+  by_cases hlow : j < cd.top.headD 0
+  · left
+    intro x hx y hy
+    obtain ⟨j', b, hj'm, hj'b, hyb⟩ := hinput y hy
+    obtain ⟨hj'lt, hj'eq⟩ := List.getElem?_eq_some_iff.mp hj'b
+    have := hp j j' hjlt hj'lt (by have := (hidx j').mp hj'm; omega)
+    rw [hjeq, hj'eq] at this
+    exact this x hx y hyb
+  · right
+    intro x hx y hy
+    obtain ⟨j', b, hj'm, hj'b, hyb⟩ := hinput y hy
+    obtain ⟨hj'lt, hj'eq⟩ := List.getElem?_eq_some_iff.mp hj'b
+    have := hp j' j hj'lt hjlt (by have := (hidx j').mp hj'm; omega)
+    rw [hjeq, hj'eq] at this
+    exact this y hyb x hx
+
+/-- the index list removed from the next level -/
+def keptIdx (cd : CompactDef) : List Nat := if cd.thisLevel = cd.nextLevel then cd.top ++ cd.bot else cd.bot
+
+theorem newNext_eq (s : Lsm) (cd : CompactDef) (new0 : List Tbl) :
+    newNext s cd new0 = sortBySmallest (removeIdx (cdNextT s cd) (keptIdx cd) ++ withIds new0 cd.outIds) := rfl
+
+theorem kept_oneSide {s : Lsm} {cd : CompactDef} (h : LsmInv s) (hv : VerBound s) (hc : CompactOk s cd)
+    (hn : 1 ≤ cd.nextLevel) {t : Tbl} (ht : t ∈ removeIdx (cdNextT s cd) (keptIdx cd)) :
+    OneSide t (topEnts s cd ++ botEnts s cd) := by
+  obtain ⟨hb, hcase⟩ := hc
+  unfold keptIdx at ht
+  rcases hcase with hh | hh | hh | hh
+  · have : cd.thisLevel ≠ cd.nextLevel := by rw [hh.1]; omega
+    rw [if_neg this] at ht
+    exact kept_oneSide_exact h hv hb hn hh.2.2.2.2 ht
+  · have : cd.thisLevel ≠ cd.nextLevel := by rw [hh.2.1]; omega
+    rw [if_neg this] at ht
+    exact kept_oneSide_exact h hv hb hn hh.2.2.2 ht
+  · rw [hh.2.1] at hn; omega
+  · rw [if_pos hh.2.1.symm] at ht
+    exact kept_oneSide_lmax h hb hh ht
+
+theorem newNext_level {s : Lsm} {cd : CompactDef} {d n now : Nat} {new0 : List Tbl} (h : LsmInv s)
+    (hv : VerBound s) (hc : CompactOk s cd)
+    (hsp : splitSizes cd.outSizes (compactOutput s cd d n now).1 = some new0)
+    {R : Ent → Ent → Prop} (hR : SepRel R) (hkR : ∀ a b, keyLt a b → R a b)
+    (hN : (withIds new0 cd.outIds).Pairwise (Sep R)) :
+    (∀ t ∈ newNext s cd new0, TblOk t) ∧ (1 ≤ cd.nextLevel → (newNext s cd new0).Pairwise (Sep R)) := by
+  obtain ⟨hnew, _⟩ := new_tables h hc hsp
+  obtain ⟨hnl, hnok⟩ := next_level h hc.1
+  have hsub := removeIdx_sublist (cdNextT s cd) (keptIdx cd)
+  have hok : ∀ t ∈ removeIdx (cdNextT s cd) (keptIdx cd) ++ withIds new0 cd.outIds, TblOk t := by
+    intro t ht
+    rcases List.mem_append.mp ht with ht | ht
+    · exact hnok.1 t (hsub.subset ht)
+    · exact (hnew t ht).1
+  rw [newNext_eq]
+  refine ⟨fun t ht => hok t (mem_sortBySmallest.mp ht), ?_⟩
+  intro hn
+  apply sortBySmallest_pairwise hR (fun t ht => (hok t ht).1)
+  rw [List.pairwise_append]
+  refine ⟨?_, hN.imp (fun h => .inl h), ?_⟩
+  · have := (hnok.2 hn).sublist hsub
+    exact this.imp (fun hab => .inl (fun x hx y hy => hkR _ _ (hab x hx y hy)))
+  · intro t ht nt hnt
+    have hin : ∀ y ∈ nt.ents, y ∈ topEnts s cd ++ botEnts s cd := by
+      intro y hy
+      exact List.mem_append.mpr (mem_compactOutput ((hnew nt hnt).2 y hy))
+    rcases kept_oneSide h hv hc hn ht with hside | hside
+    · exact .inl (fun x hx y hy => hkR _ _ (hside x hx y (hin y hy)))
+    · exact .inr (fun y hy x hx => hkR _ _ (hside x hx y (hin y hy)))
+
+theorem mem_allEntries_compact {s : Lsm} {cd : CompactDef} {d n now : Nat} {new0 : List Tbl} (h : LsmInv s)
+    (hc : CompactOk s cd) (hsp : splitSizes cd.outSizes (compactOutput s cd d n now).1 = some new0) {e : Ent}
+    (he : e ∈ ({ s with levels := newLevels s cd new0 } : Lsm).allEntries) : e ∈ s.allEntries := by
+  rw [mem_allEntries] at he ⊢
+  rcases he with he | he | ⟨i, tbls, t, hi, ht, het⟩
+  · exact .inl he
+  · exact .inr (.inl he)
+  · right; right
+    obtain ⟨hthis, _⟩ := this_level h hc.1
+    obtain ⟨hnext, _⟩ := next_level h hc.1
+    simp only at hi
+    rw [newLevels_get new0 hc.1.1 hc.1.2.1] at hi
+    split at hi
+    · rename_i hcond
+      simp at hi; subst hi
+      exact ⟨cd.thisLevel, _, t, hthis, (removeIdx_sublist _ _).subset ht, het⟩
+    · split at hi
+      · simp at hi; subst hi
+        rw [newNext_eq] at ht
+        rcases List.mem_append.mp (mem_sortBySmallest.mp ht) with ht | ht
+        · exact ⟨cd.nextLevel, _, t, hnext, (removeIdx_sublist _ _).subset ht, het⟩
+        · rcases mem_compactOutput (((new_tables h hc hsp).1 t ht).2 e het) with h1 | h1
+          · obtain ⟨tt, htt, hett⟩ := mem_topEnts.mp h1
+            exact ⟨cd.thisLevel, _, tt, hthis, tops_mem htt, hett⟩
+          · obtain ⟨tt, htt, hett⟩ := mem_botEnts.mp h1
+            exact ⟨cd.nextLevel, _, tt, hnext, bots_mem htt, hett⟩
+      · exact ⟨i, tbls, t, hi, ht, het⟩
+
+/-- levels of the state after a compaction, generic in the separation relation -/
+theorem compact_levels {s : Lsm} {cd : CompactDef} {d n now : Nat} {new0 : List Tbl} (h : LsmInv s)
+    (hv : VerBound s) (hc : CompactOk s cd)
+    (hsp : splitSizes cd.outSizes (compactOutput s cd d n now).1 = some new0)
+    {R : Ent → Ent → Prop} (hR : SepRel R) (hkR : ∀ a b, keyLt a b → R a b)
+    (hN : (withIds new0 cd.outIds).Pairwise (Sep R)) {i : Nat} {tbls : List Tbl}
+    (hi : (newLevels s cd new0)[i]? = some tbls) :
+    (∀ t ∈ tbls, TblOk t) ∧ (1 ≤ i → tbls.Pairwise (Sep R)) := by
+  rw [newLevels_get new0 hc.1.1 hc.1.2.1] at hi
+  have weaken : ∀ {j : Nat} {l : List Tbl}, LevelOk j l → (∀ t ∈ l, TblOk t) ∧ (1 ≤ j → l.Pairwise (Sep R)) := by
+    intro j l hl
+    exact ⟨hl.1, fun hj => (hl.2 hj).imp (fun hab x hx y hy => hkR _ _ (hab x hx y hy))⟩
+  split at hi
+  · rename_i hcond
+    simp at hi; subst hi
+    obtain ⟨_, hl⟩ := this_level h hc.1
+    have hsub := removeIdx_sublist (cdThisT s cd) cd.top
+    rw [hcond.1]
+    obtain ⟨w1, w2⟩ := weaken hl
+    exact ⟨fun t ht => w1 t (hsub.subset ht), fun hj => (w2 hj).sublist hsub⟩
+  · split at hi
+    · rename_i hnx
+      simp at hi; subst hi
+      rw [hnx]
+      exact newNext_level h hv hc hsp hR hkR hN
+    · exact weaken (h.level hi)
+
+
+/-- the state after a compaction satisfies the weak invariant (no assumption on table cuts) -/
+theorem compact_invW {s s' : Lsm} {cd : CompactDef} {d n now : Nat} (h : LsmInv s) (hv : VerBound s)
+    (hc : CompactOk s cd) (hs : s.compact cd d n now = some s') : LsmInvW s' := by
+  obtain ⟨new0, hsp, rfl⟩ := compact_some hs
+  refine ⟨h.1, h.2.1, ?_, fun e he => h.2.2.2 e (mem_allEntries_compact h hc hsp he)⟩
+  rintro ⟨i, tbls⟩ hp
+  have hi := (mem_zipIdx _ _ _).mp hp
+  obtain ⟨h1, h2⟩ := compact_levels h hv hc hsp sepRel_elt (fun a b hab => .inl hab) (new_tables h hc hsp).2 hi
+  exact ⟨fun t ht => (h1 t ht).2, fun hi1 => (flatten_sorted_iff tbls).mpr ⟨fun t ht => (h1 t ht).2, h2 hi1⟩⟩
+
+theorem compact_verBound {s s' : Lsm} {cd : CompactDef} {d n now : Nat} (h : LsmInv s) (hv : VerBound s)
+    (hc : CompactOk s cd) (hs : s.compact cd d n now = some s') : VerBound s' := by
+  obtain ⟨new0, hsp, rfl⟩ := compact_some hs
+  exact fun e he => hv e (mem_allEntries_compact h hc hsp he)
+
 end LL
+
+/-- evaluate `Lsm.compact` & co. on closed terms (`merge2` is defined by well-founded recursion, so
+    `decide` alone gets stuck; its equation lemmas are used instead) -/
+macro "lsm_eval" : tactic => `(tactic|
+  (simp [Lsm.compact, compactOutput, mergeAll, merge2_cons_cons, pickIdx, checkOverlap, keyRangeOf, Tbl.smallest,
+      Tbl.biggest, zipIdx, tblOverlaps, subcompact, filtRun, filtStep, hasAnyPrefix, splitSizes, withIds, removeIdx,
+      sortBySmallest, insertBySmallest, deletedOrExpired, hasBit, bitDelete, bitMerge, bitDiscardEarlier, List.range,
+      List.range.loop, entCmp, kvCmp, cmpBytes, Ent.ikey, keyWithTs]
+   try decide))
+
 end Badger
